@@ -12,7 +12,7 @@ import Penguin.Model.Link
 import Penguin.Model.Mux
 import Penguin.Lemmas.Link
 import Penguin.Lemmas.LinkGlue
-import Penguin.Lemmas.PairCor
+import Penguin.Lemmas.PairHarness
 
 namespace Penguin.C03
 open Penguin Penguin.Link
@@ -179,6 +179,19 @@ theorem pair_push_always_fits {oa ob : Opts} {ra rb : List Nat} (c : Cfg oa ob r
       oB.rxq.length < oB.cap :=
   established_push_fits (reach_inv c as) e d rest hab
 
+open Penguin.Mux Penguin.Pair in
+/-- The same at the level the correspondence harness works at: after EVERY history of stimuli
+    (application calls and deliveries at either endpoint, each followed by that endpoint's run to
+    quiescence — `Mux.applyOp`, the function compared with the real `Multiplexor` step by step), on
+    every flow established on both endpoints, the credit accounting holds.  (`stimRun` checks each
+    stimulus's side conditions; every such history is a fine-grained run, `Pair.stimRun_is_run`.) -/
+theorem harness_history_window {oa ob : Opts} {ra rb : List Nat} (c : Cfg oa ob ra rb) (l : List (Pair.Side × Stim)) (q : PS)
+    (h : stimRun (Pair.init oa ob ra rb) l = some q) {x i j : Nat} (e : Established q x i j) :
+    ∃ oA oB, q.a.objs[i]? = some oA ∧ q.b.objs[j]? = some oB ∧
+      oA.credit + (pushesOf x (pathAB q)).length + oB.rxq.length + oB.recvdSince + (acksOf x (pathBA q)).sum = q.b.opts.rwnd ∧
+      oB.rxq.length ≤ q.b.opts.rwnd ∧ oB.cap = q.b.opts.rwnd :=
+  established_credit (stim_history_inv c l q h) e
+
 /-! Non-vacuity of the pair theorems: a concrete run (windows 2, threshold 1) that opens a stream,
     writes three bytes, reads them in two reads, shuts down and reads end-of-stream. -/
 private def pcfg : Mux.Opts := { rwnd := 2, threshold := 1 }
@@ -193,5 +206,14 @@ example : Pair.Established (Pair.run (Pair.init pcfg pcfg [7, 8] [9, 10]) pacts)
 /-! Non-vacuity: a concrete run with an asymmetric configuration (window 2, threshold 1). -/
 example : (run (init 2 1) [.write [1], .write [2], .write [3], .deliver, .read 8, .deliverAck, .write [3]]).sent = 3 := by decide
 example : (step (run (init 2 1) [.write [1], .write [2]]) (.write [3])).2 = .pending := by decide
+
+/-! Non-vacuity of `harness_history_window`: a stimulus-level history that opens a stream, transfers
+    three bytes and half-closes is accepted by `stimRun`. -/
+private def hhist : List (Pair.Side × Pair.Stim) :=
+  [(.A, .call (.open 1 [104] 80)), (.B, .deliver), (.A, .deliver), (.B, .call .accept),
+   (.A, .call (.write 0 [1, 2, 3])), (.B, .deliver), (.B, .call (.read 0 2)), (.B, .call (.read 0 9)), (.A, .deliver),
+   (.A, .call (.shutdown 0)), (.B, .deliver), (.B, .call (.read 0 9))]
+example : ((Pair.stimRun (Pair.init pcfg pcfg [7, 8] [9, 10]) hhist).map (fun q => (q.gb.rlog 0, q.gb.eof 0))) =
+    some ([1, 2, 3], true) := by decide
 
 end Penguin.C03
